@@ -3,7 +3,10 @@ package main
 // paths.go — PATH: latch (field-nil dataflow), provenance slices, must-pass-through helpers.
 
 import (
+	"fmt"
+	"go/constant"
 	"go/token"
+	"strings"
 	"go/types"
 
 	"golang.org/x/tools/go/ssa"
@@ -41,6 +44,7 @@ type fieldFlow struct {
 	typ, fld string
 	in       map[*ssa.BasicBlock]nilState
 	mayStore func(call ssa.CallInstruction) bool
+	sh       *ffShared
 }
 
 // mayStoreFieldSet computes the set of module functions that (transitively) contain a store to field typ.fld.
@@ -82,9 +86,202 @@ func mayStoreFieldSet(p *Program, typ, fld string) map[*ssa.Function]bool {
 	return set
 }
 
+// Interprocedural part of the latch analysis. The state of base.fld at the entry of a method is the join of the states
+// at all of its static call sites that pass the caller's own tracked object as receiver (unexported methods only; anything
+// else starts unknown), and a call of a method on the tracked object continues with that method's exit state for the
+// current state (summaries memoised per (method, entry state); recursion yields unknown). This makes the analysis see
+// through helpers extracted from a guarded region.
+type ffKey struct {
+	fn    *ssa.Function
+	entry nilState
+}
+
+type ffShared struct {
+	p        *Program
+	typ, fld string
+	storeSet map[*ssa.Function]bool
+	exitMemo map[ffKey]nilState
+	exitBusy map[ffKey]bool
+	entMemo  map[*ssa.Function]nilState
+	entBusy  map[*ssa.Function]bool
+}
+
+var ffSharedCache = map[string]*ffShared{}
+
+func sharedFF(p *Program, typ, fld string, storeSet map[*ssa.Function]bool) *ffShared {
+	k := fmt.Sprintf("%p/%s.%s", p, typ, fld)
+	if sh, ok := ffSharedCache[k]; ok {
+		return sh
+	}
+	// a new program (a control variant): drop the summaries of earlier ones so that they can be collected
+	for old := range ffSharedCache {
+		if !strings.HasPrefix(old, fmt.Sprintf("%p/", p)) {
+			delete(ffSharedCache, old)
+		}
+	}
+	sh := &ffShared{p: p, typ: typ, fld: fld, storeSet: storeSet, exitMemo: map[ffKey]nilState{}, exitBusy: map[ffKey]bool{}, entMemo: map[*ssa.Function]nilState{}, entBusy: map[*ssa.Function]bool{}}
+	ffSharedCache[k] = sh
+	return sh
+}
+
+// recvOfType returns fn's receiver parameter if it is a pointer to typ.
+func recvOfType(fn *ssa.Function, typ string) *ssa.Parameter {
+	if fn == nil || fn.Signature.Recv() == nil || len(fn.Params) == 0 {
+		return nil
+	}
+	if typeName(deref(fn.Params[0].Type())) != typ {
+		return nil
+	}
+	return fn.Params[0]
+}
+
+// exitState: state of recv.fld when method g returns, given the state at its entry.
+func (sh *ffShared) exitState(g *ssa.Function, entry nilState) nilState {
+	k := ffKey{g, entry}
+	if v, ok := sh.exitMemo[k]; ok {
+		return v
+	}
+	if sh.exitBusy[k] {
+		return nsUnknown
+	}
+	recv := recvOfType(g, sh.typ)
+	if recv == nil || g.Blocks == nil {
+		return nsUnknown
+	}
+	sh.exitBusy[k] = true
+	ff := runFieldFlow(sh, g, recv, entry)
+	out := nsUnvisited
+	for _, r := range returnsOf(g) {
+		out = joinNil(out, ff.before(r))
+	}
+	if out == nsUnvisited {
+		out = nsUnknown
+	}
+	delete(sh.exitBusy, k)
+	sh.exitMemo[k] = out
+	return out
+}
+
+// exitStateBool: like exitState for a method with a single bool result, split by the value returned: the state of
+// recv.fld when g returns true / returns false (the idiom `func (w *T) step() bool { ...; return w.err == nil }`).
+func (sh *ffShared) exitStateBool(g *ssa.Function, entry nilState) (ifTrue, ifFalse nilState) {
+	recv := recvOfType(g, sh.typ)
+	res := g.Signature.Results()
+	if recv == nil || g.Blocks == nil || res.Len() != 1 {
+		u := sh.exitState(g, entry)
+		return u, u
+	}
+	if b, ok := res.At(0).Type().Underlying().(*types.Basic); !ok || b.Kind() != types.Bool {
+		u := sh.exitState(g, entry)
+		return u, u
+	}
+	k := ffKey{g, entry}
+	if sh.exitBusy[k] {
+		return nsUnknown, nsUnknown
+	}
+	sh.exitBusy[k] = true
+	defer delete(sh.exitBusy, k)
+	ff := runFieldFlow(sh, g, recv, entry)
+	ifTrue, ifFalse = nsUnvisited, nsUnvisited
+	for _, r := range returnsOf(g) {
+		at := ff.before(r)
+		v := r.Results[0]
+		switch x := v.(type) {
+		case *ssa.Const:
+			if x.Value != nil && x.Value.Kind() == constant.Bool {
+				if constant.BoolVal(x.Value) {
+					ifTrue = joinNil(ifTrue, at)
+				} else {
+					ifFalse = joinNil(ifFalse, at)
+				}
+				continue
+			}
+		case *ssa.BinOp:
+			if y, nilIdx, ok := nilTest(x); ok && ff.isFreshLoad(y, x.Block()) && x.Block() == r.Block() {
+				// nilTest reports which successor index (0 = cond true) means nil
+				if nilIdx == 0 {
+					ifTrue, ifFalse = joinNil(ifTrue, nsNil), joinNil(ifFalse, nsNonNil)
+				} else {
+					ifTrue, ifFalse = joinNil(ifTrue, nsNonNil), joinNil(ifFalse, nsNil)
+				}
+				continue
+			}
+		case *ssa.Call:
+			if h := x.Call.StaticCallee(); h != nil && len(x.Call.Args) > 0 && x.Call.Args[0] == ssa.Value(recv) && recvOfType(h, sh.typ) != nil && x.Block() == r.Block() {
+				t, f := sh.exitStateBool(h, ff.before(x))
+				ifTrue, ifFalse = joinNil(ifTrue, t), joinNil(ifFalse, f)
+				continue
+			}
+		}
+		ifTrue, ifFalse = joinNil(ifTrue, at), joinNil(ifFalse, at)
+	}
+	if ifTrue == nsUnvisited {
+		ifTrue = nsUnknown
+	}
+	if ifFalse == nsUnvisited {
+		ifFalse = nsUnknown
+	}
+	return ifTrue, ifFalse
+}
+
+// entryState: join over the static call sites of unexported method g of the state before the call, when the call's
+// receiver is the caller's own tracked receiver.
+func (sh *ffShared) entryState(g *ssa.Function) nilState {
+	if v, ok := sh.entMemo[g]; ok {
+		return v
+	}
+	if sh.entBusy[g] || recvOfType(g, sh.typ) == nil || g.Object() == nil || g.Object().Exported() {
+		return nsUnknown
+	}
+	sh.entBusy[g] = true
+	out := nsUnvisited
+	ok := true
+	for _, caller := range sh.p.Funcs {
+		for _, cf := range withAnons(caller) {
+			eachInstr(cf, func(in ssa.Instruction) {
+				// address taken anywhere: give up
+				if mc, isMC := in.(*ssa.MakeClosure); isMC && mc.Fn == ssa.Value(g) {
+					ok = false
+				}
+				ci, isCall := in.(ssa.CallInstruction)
+				if !isCall || ci.Common().StaticCallee() != g {
+					return
+				}
+				if _, isGo := in.(*ssa.Go); isGo {
+					ok = false
+					return
+				}
+				crecv := recvOfType(cf, sh.typ)
+				if crecv == nil || len(ci.Common().Args) == 0 || ci.Common().Args[0] != ssa.Value(crecv) {
+					ok = false
+					return
+				}
+				ff := runFieldFlow(sh, cf, crecv, sh.entryState(cf))
+				out = joinNil(out, ff.before(in))
+			})
+		}
+	}
+	delete(sh.entBusy, g)
+	if !ok || out == nsUnvisited {
+		out = nsUnknown
+	}
+	sh.entMemo[g] = out
+	return out
+}
+
 // newFieldFlow runs the forward must-analysis "base.fld is nil" over fn.
 func newFieldFlow(p *Program, fn *ssa.Function, base ssa.Value, typ, fld string, storeSet map[*ssa.Function]bool) *fieldFlow {
-	ff := &fieldFlow{fn: fn, base: base, typ: typ, fld: fld, in: map[*ssa.BasicBlock]nilState{}}
+	sh := sharedFF(p, typ, fld, storeSet)
+	entry := nsUnknown
+	if recv := recvOfType(fn, typ); recv != nil && ssa.Value(recv) == base {
+		entry = sh.entryState(fn)
+	}
+	return runFieldFlow(sh, fn, base, entry)
+}
+
+func runFieldFlow(sh *ffShared, fn *ssa.Function, base ssa.Value, entry nilState) *fieldFlow {
+	p, typ, fld, storeSet := sh.p, sh.typ, sh.fld, sh.storeSet
+	ff := &fieldFlow{fn: fn, base: base, typ: typ, fld: fld, in: map[*ssa.BasicBlock]nilState{}, sh: sh}
 	cg := p.CallGraph()
 	ff.mayStore = func(call ssa.CallInstruction) bool {
 		if f := call.Common().StaticCallee(); f != nil {
@@ -99,7 +296,7 @@ func newFieldFlow(p *Program, fn *ssa.Function, base ssa.Value, typ, fld string,
 		}
 		return false
 	}
-	ff.in[fn.Blocks[0]] = nsUnknown
+	ff.in[fn.Blocks[0]] = entry
 	work := []*ssa.BasicBlock{fn.Blocks[0]}
 	for len(work) > 0 {
 		b := work[0]
@@ -114,6 +311,16 @@ func newFieldFlow(p *Program, fn *ssa.Function, base ssa.Value, typ, fld string,
 					} else {
 						es = nsNonNil
 					}
+				} else if call, neg, ok := ff.boolCallTest(iff.Cond, b); ok {
+					t, f := sh.exitStateBool(call.Call.StaticCallee(), ff.before(call))
+					if neg {
+						t, f = f, t
+					}
+					if si == 0 {
+						es = t
+					} else {
+						es = f
+					}
 				}
 			}
 			ns := joinNil(ff.in[s], es)
@@ -124,6 +331,39 @@ func newFieldFlow(p *Program, fn *ssa.Function, base ssa.Value, typ, fld string,
 		}
 	}
 	return ff
+}
+
+// boolCallTest: cond is (the negation of) the bool result of a method call on the tracked object made in block b with
+// nothing after it in b that could change the field.
+func (ff *fieldFlow) boolCallTest(cond ssa.Value, b *ssa.BasicBlock) (*ssa.Call, bool, bool) {
+	neg := false
+	for {
+		if u, ok := cond.(*ssa.UnOp); ok && u.Op == token.NOT {
+			neg = !neg
+			cond = u.X
+			continue
+		}
+		break
+	}
+	call, ok := cond.(*ssa.Call)
+	if !ok || call.Block() != b || ff.sh == nil {
+		return nil, false, false
+	}
+	g := call.Call.StaticCallee()
+	if g == nil || len(call.Call.Args) == 0 || call.Call.Args[0] != ff.base || recvOfType(g, ff.typ) == nil {
+		return nil, false, false
+	}
+	after := false
+	for _, in := range b.Instrs {
+		if in == ssa.Instruction(call) {
+			after = true
+			continue
+		}
+		if after && ff.invalidates(in) {
+			return nil, false, false
+		}
+	}
+	return call, neg, true
 }
 
 func (ff *fieldFlow) isOurField(addr ssa.Value) bool {
@@ -179,6 +419,12 @@ func (ff *fieldFlow) transferInstr(in ssa.Instruction, s nilState) nilState {
 			return s
 		}
 		if ff.mayStore(x) {
+			// a method of the tracked object itself: continue with its exit state for the current state
+			if g := x.Common().StaticCallee(); g != nil && ff.sh != nil && len(x.Common().Args) > 0 && x.Common().Args[0] == ff.base && recvOfType(g, ff.typ) != nil {
+				if _, isCall := in.(*ssa.Call); isCall {
+					return ff.sh.exitState(g, s)
+				}
+			}
 			return nsUnknown
 		}
 	}
